@@ -1,11 +1,7 @@
 #!/bin/sh
-# evaluates every mutant found under /tmp/mut/Cxx/_mut/k against its own property's check
+# evaluates every mutant found under $MUTROOT/Cxx/_mut/k against its own property's check (results cached in
+# result.<tier>.txt next to the patch; FORCE=1 re-evaluates).  VERIF_ROOT selects the copy of the machinery,
+# JOBS the number of evaluations side by side.
 tier=${1:-quick}
-for d in ${MUTROOT:-/tmp/mut}/C*/_mut/*/; do
-  [ -f $d/patch.diff ] || continue
-  p=$(echo $d | grep -o "C[0-9][0-9]" | head -1)
-  k=$(basename $d)
-  if [ -f $d/result.$tier.txt ] && [ -z "${FORCE:-}" ]; then echo "$p/$k: $(tr '\n' ' ' < $d/result.$tier.txt)"; continue; fi
-  /verif/tools/evalmut.sh $d $p $tier > $d/result.$tier.txt 2>&1
-  echo "$p/$k: $(tr '\n' ' ' < $d/result.$tier.txt | cut -c1-200)"
-done
+R=${VERIF_ROOT:-/verif}
+ls -d ${MUTROOT:-/tmp/mut}/C*/_mut/*/ | xargs -P ${JOBS:-1} -I{} sh -c 'd={}; [ -f $d/patch.diff ] || exit 0; p=$(echo $d | grep -o "C[0-9][0-9]" | head -1); k=$(basename $d); if [ ! -f $d/result.'$tier'.txt ] || [ -n "${FORCE:-}" ]; then VERIF_ROOT='$R' '$R'/tools/evalmut.sh $d $p '$tier' > $d/result.'$tier'.txt 2>&1; fi; echo "$p/$k: $(tr "\n" " " < $d/result.'$tier'.txt | cut -c1-200)"'
